@@ -106,4 +106,32 @@ theorem applyUpdate_stamped (mks sys : List String) (o des : J) (h : Stamped mks
   rw [ho]
   simp only [setNested_meta_same os m "annotations" (.obj am) hmeta hann]
 
+/-- the same with the merge fixpoint as a hypothesis (however it was obtained) -/
+theorem applyUpdate_of_fix (mks sys : List String) (o des : J) (os m am : KVs)
+    (ho : o = .obj os) (hobj : des.isObj = true) (hmeta : lookup "metadata" os = some (.obj m)) (hann : lookup "annotations" m = some (.obj am))
+    (hstr : am.all (fun kv => isStringish kv.1 kv.2) = true) (hla : lookup lastAppliedAnnotation am = some des)
+    (hclean : nullifyLastApplied des = des) (hmerge : merge mks o (some des) des = .ok o) :
+    applyUpdate mks sys o des = .ok o := by
+  have hga : getAnnotations o = some am := by
+    unfold getAnnotations stringMapAt
+    rw [ho, nestedField_meta os m "annotations" hmeta, hann]
+    simp [hstr]
+  have hlast : getLastApplied o = .ok (some des) := by
+    unfold getLastApplied
+    rw [hga]
+    simp only [hla]
+    cases des <;> simp [J.isObj] at hobj ⊢
+  unfold applyUpdate
+  simp only [hlast, hclean, bind, Except.bind, hmerge]
+  rw [ho, revertSystemFields_self sys os m hmeta]
+  simp only [revertField_self_top]
+  show Except.ok (setLastApplied (.obj os) des) = Except.ok (.obj os)
+  congr 1
+  unfold setLastApplied
+  rw [← ho, hga]
+  simp only [Option.getD_some, setKey_id lastAppliedAnnotation des am hla]
+  unfold setStringMapAt
+  rw [ho]
+  simp only [setNested_meta_same os m "annotations" (.obj am) hmeta hann]
+
 end Mc
